@@ -26,15 +26,21 @@ def main():
     out = [None] * n
     errs = []
 
+    def listen(P):
+        # cells and ranges are answered from the coordinates the listener is handed
+        P.on('callCellValue', lambda cell, setter: setter(cell.row.index * 100000 + cell.col.index))
+        P.on('callRangeValue', lambda a, b, setter: setter([a.row.index, a.col.index, b.row.index, b.col.index]))
+        return P
+
     def body(i):
         try:
             if job.get('import_in_thread'):
                 barrier.wait()
                 import hotxlfp
-                P = hotxlfp.Parser()
+                P = listen(hotxlfp.Parser())
             else:
                 import hotxlfp
-                P = hotxlfp.Parser()
+                P = listen(hotxlfp.Parser())
                 barrier.wait()
             out[i] = [show(P.parse(f)) for f in formulas]
         except BaseException as e:
@@ -45,7 +51,7 @@ def main():
     for t in ts:
         t.join(60)
     import hotxlfp
-    solo = [show(hotxlfp.Parser().parse(f)) for f in formulas]
+    solo = [show(listen(hotxlfp.Parser()).parse(f)) for f in formulas]
     json.dump({'threads': out, 'solo': solo, 'errors': errs, 'alive': [t.is_alive() for t in ts]}, sys.stdout)
 
 
